@@ -34,7 +34,12 @@ ScanOnly == { <<"partialFlags", "shorter">>, <<"partialFlags", "longer">>, <<"pa
 MultiOnly == { <<"index", "zero">>, <<"index", "outOfRange">>, <<"index", "hole">>, <<"index", "duplicate">>,
                <<"result", "omitted">>, <<"result", "both">>, <<"result", "neither">>,
                <<"regionResults", "extra">>, <<"regionResults", "fewer">>, <<"regionResults", "exceptionWithResults">>,
-               <<"regionResults", "exceptionNoName">>, <<"actionException", "noName">> }
+               <<"regionResults", "exceptionNoName">>, <<"actionException", "noName">>,
+               \* an entry that carries an exception instead of a result, with a bad index (first / last entry of its region)
+               <<"excIndex", "zero">>, <<"excIndex", "missing">>, <<"excIndex", "outOfRange">>, <<"excIndex", "hole">>,
+               <<"excIndex", "duplicate">>,
+               <<"excIndexLast", "zero">>, <<"excIndexLast", "missing">>, <<"excIndexLast", "outOfRange">>, <<"excIndexLast", "hole">>,
+               <<"excIndexLast", "duplicate">>, <<"excIndex", "serverFatalClass">>, <<"excIndexLast", "serverFatalClass">> }
 RegionInfoCases == { <<"value", "empty">>, <<"value", "len1">>, <<"value", "len3">>, <<"value", "badMagic">>, <<"value", "badProto">>,
                      <<"value", "noTableName">>, <<"row", "noCells">>, <<"server", "empty">> }
 Cases == {[kind |-> k, field |-> c[1], op |-> c[2]] : k \in Kinds, c \in Common}
